@@ -361,6 +361,111 @@ type guardSpec struct {
 	Fields    []string          // guarded field names
 	WriteExcl bool              // writes need the exclusive lock (RWMutex)
 	Exempt    map[string]string // function short name -> reason (constructors, init under sync.Once, ...)
+	Mutators  bool              // a call of a receiver-mutating method on a value reached through a guarded field counts as a write of that field
+}
+
+// mutatesReceiver: fn (a module function) stores through its first parameter: a Store / MapUpdate / delete whose
+// target is reached from parameter 0 by field, index, element and load steps, or a static call handing such a value
+// as first argument to a function that does. Lazily initialised caches (`if m.cache == nil { m.cache = ... }`) are
+// writes like any other: two readers racing through them corrupt the structure.
+func (c *Ctx) mutatesReceiver(fn *ssa.Function, seen map[*ssa.Function]bool) bool {
+	if c.mutMemo == nil {
+		c.mutMemo = map[*ssa.Function]bool{}
+	}
+	if r, ok := c.mutMemo[fn]; ok {
+		return r
+	}
+	if seen[fn] || len(fn.Params) == 0 || len(fn.Blocks) == 0 {
+		return false
+	}
+	seen[fn] = true
+	derived := derivedFrom(fn.Params[0])
+	res := false
+	for _, b := range fn.Blocks {
+		for _, ins := range b.Instrs {
+			switch x := ins.(type) {
+			case *ssa.Store:
+				if derived[x.Addr] {
+					res = true
+				}
+			case *ssa.MapUpdate:
+				if derived[x.Map] {
+					res = true
+				}
+			case ssa.CallInstruction:
+				cc := x.Common()
+				if bi, ok := cc.Value.(*ssa.Builtin); ok {
+					if bi.Name() == "delete" && len(cc.Args) > 0 && derived[cc.Args[0]] {
+						res = true
+					}
+					continue
+				}
+				if f := cc.StaticCallee(); f != nil && len(cc.Args) > 0 && derived[cc.Args[0]] && f.Pkg != nil && strings.HasPrefix(f.Pkg.Pkg.Path(), modPath) {
+					if c.mutatesReceiver(f, seen) {
+						res = true
+					}
+				}
+			}
+		}
+	}
+	c.mutMemo[fn] = res
+	return res
+}
+
+// derivedFrom: values reached from root by field, index, element, load, map lookup and range-iteration steps.
+func derivedFrom(root ssa.Value) map[ssa.Value]bool {
+	out := map[ssa.Value]bool{root: true}
+	work := []ssa.Value{root}
+	for len(work) > 0 {
+		v := work[len(work)-1]
+		work = work[:len(work)-1]
+		refs := v.Referrers()
+		if refs == nil {
+			continue
+		}
+		for _, r := range *refs {
+			var nv ssa.Value
+			switch x := r.(type) {
+			case *ssa.FieldAddr:
+				if x.X == v {
+					nv = x
+				}
+			case *ssa.Field:
+				if x.X == v {
+					nv = x
+				}
+			case *ssa.IndexAddr:
+				if x.X == v {
+					nv = x
+				}
+			case *ssa.UnOp:
+				if x.Op == token.MUL && x.X == v {
+					nv = x
+				}
+			case *ssa.Lookup:
+				if x.X == v {
+					nv = x
+				}
+			case *ssa.Range:
+				if x.X == v {
+					nv = x
+				}
+			case *ssa.Next:
+				if x.Iter == v {
+					nv = x
+				}
+			case *ssa.Extract:
+				if x.Tuple == v {
+					nv = x
+				}
+			}
+			if nv != nil && !out[nv] {
+				out[nv] = true
+				work = append(work, nv)
+			}
+		}
+	}
+	return out
 }
 
 type heldCache struct {
@@ -524,6 +629,25 @@ func (c *Ctx) GuardedBy(rule string, gs guardSpec, cfg *lockCfg) int {
 						}
 					}
 				}
+				mutCall := ""
+				if gs.Mutators && !write {
+					der := derivedFrom(fa)
+					for v := range der {
+						refs := v.Referrers()
+						if refs == nil {
+							continue
+						}
+						for _, r := range *refs {
+							if ci, ok := r.(ssa.CallInstruction); ok {
+								cc := ci.Common()
+								if f := cc.StaticCallee(); f != nil && len(cc.Args) > 0 && cc.Args[0] == v && f.Pkg != nil && strings.HasPrefix(f.Pkg.Pkg.Path(), modPath) && c.mutatesReceiver(f, map[*ssa.Function]bool{}) {
+									write = true
+									mutCall = shortFn(f)
+								}
+							}
+						}
+					}
+				}
 				excl := write && gs.WriteExcl
 				if !gs.WriteExcl {
 					excl = false
@@ -534,6 +658,9 @@ func (c *Ctx) GuardedBy(rule string, gs guardSpec, cfg *lockCfg) int {
 				acc := "read"
 				if write {
 					acc = "write"
+				}
+				if mutCall != "" {
+					acc = "write (through " + mutCall + ")"
 				}
 				cons := fmt.Sprintf("%s: %s of %s.%s under %s", name, acc, typeShort(named), pst.Field(fa.Field).Name(), gs.Lock)
 				if why, ok := gs.Exempt[name]; ok {
